@@ -50,7 +50,7 @@ m = {
  "hooks": {
   "guard": "verif",
   "enable": "go build -tags verif (the harness links /repo through a replace directive)",
-  "baseline_off_cmd": "cd /repo && go build ./... && go test -vet=off -count=1 ./...",
+  "baseline_off_cmd": "cd /repo && go build ./... && go test -mod=mod -json -vet=off -count=1 -timeout 25m ./...",
   "source_commits": HOOK_COMMITS,
   "add_only": True,
  },
